@@ -138,6 +138,18 @@ theorem isList_next {h : Heap} {l : Lid} {pre post : List Node} {c : Node} (hl :
 theorem isList_tail {h : Heap} {l : Lid} {a : List Node} {t : Node} (hl : IsList h l (a ++ [t])) :
     h.tail l = .node t := hl.tail t (by simp)
 
+/-- **the tail is only ever read when it is meaningful.**  `list.c` reads `list->tail` in three places:
+    `list_insert` and `list_insert_sorted` (both under `if (list->head)`) and `list_iterator_remove`
+    (after `assert(curr)`, i.e. with a current node in the list).  In each the list is non-empty,
+    and then the tail is a genuine node — the last one — not a stale or bogus value. -/
+theorem tail_is_last_when_nonempty {h : Heap} {l : Lid} {xs : List Node} (hl : IsList h l xs) (hne : xs ≠ []) :
+    ∃ t, h.tail l = .node t ∧ xs.getLast? = some t ∧ h.next t = none := by
+  rcases nil_or_snoc xs with rfl | ⟨a, t, rfl⟩
+  · exact absurd rfl hne
+  · refine ⟨t, isList_tail hl, by simp, ?_⟩
+    have := isList_next (pre := a) (c := t) (post := []) hl
+    simpa using this
+
 /-! ### list_insert, list_push, list_extract, list_peek, list_empty -/
 
 /-- **list_insert appends** — also to a list emptied by any earlier operation, whatever its tail holds —
